@@ -383,4 +383,5 @@ def run(ctx):
     out.append(T.type_param_walker_rule(ctx.syn, "C16"))
     out.append(T.empty_repetition_rule(ctx.syn, "C16"))
     out.append(T.export_test_params_rule(ctx.syn, "C16"))
+    out.append(T.where_clause_rule(ctx.syn, "C16"))
     return out
